@@ -59,6 +59,9 @@ func (w *World) irProfile(fi *FuncInfo, ownPkg string) (fields, calls map[string
 			if n == "" || !isGleeceCallee(n) {
 				return
 			}
+			if w.newCallee(x) != nil {
+				return // a new function: its body is part of this profile already
+			}
 			// calls inside the emitter's own package are normalised by bare function name
 			base := strings.TrimLeft(n, "(*")
 			if strings.HasPrefix(base, ownPkg+".") {
@@ -181,8 +184,8 @@ func checkC11(c *Ctx, r *Report) {
 		}{{p30, paired30}, {p31, paired31}} {
 			for _, fi := range w.funcsOfPkg(side.pkg) {
 				name := fi.Decl.Name.Name
-				if side.paired[name] || fi.Decl.Recv != nil {
-					continue
+				if side.paired[name] || fi.Decl.Recv != nil || w.isNewName(fi.Key) {
+					continue // (a new function is profiled as part of the functions that call it)
 				}
 				fl, _ := w.irProfile(fi, side.pkg)
 				if len(fl) == 0 {
@@ -668,6 +671,16 @@ func guardWord(g bool) string {
 // innermost enclosing if, rendered as a sorted atom list (IR fields, helper calls with the
 // emitter package normalised, literals, operators). Key -> position.
 func (w *World) loopSkipProfile(fi *FuncInfo, ownPkg string) map[string]string {
+	out := map[string]string{}
+	for _, f := range w.astRegion(fi) {
+		for k, v := range w.loopSkipProfileLocal(f, ownPkg) {
+			out[k] = v
+		}
+	}
+	return out
+}
+
+func (w *World) loopSkipProfileLocal(fi *FuncInfo, ownPkg string) map[string]string {
 	out := map[string]string{}
 	// a skip is a block that does nothing but `continue` (and log): a `continue` that ends a
 	// block with other effects is a dispatch (the element was handled another way), not a skip
